@@ -453,3 +453,35 @@ impl SchedSpec {
         }
     }
 }
+
+// ---------------------------------------------------------------------------------------------
+// Shared: lets the harness keep a scheduler alive across Runners (a failing execution ends a
+// Runner::run by panic, but the scheduler's own state is intact and the search can be resumed)
+// ---------------------------------------------------------------------------------------------
+
+#[derive(Debug)]
+pub struct Shared<S: Scheduler>(pub Arc<Mutex<S>>);
+
+impl<S: Scheduler> Clone for Shared<S> {
+    fn clone(&self) -> Self {
+        Shared(self.0.clone())
+    }
+}
+
+impl<S: Scheduler> Shared<S> {
+    pub fn new(s: S) -> Self {
+        Shared(Arc::new(Mutex::new(s)))
+    }
+}
+
+impl<S: Scheduler> Scheduler for Shared<S> {
+    fn new_execution(&mut self) -> Option<Schedule> {
+        self.0.lock().unwrap_or_else(|e| e.into_inner()).new_execution()
+    }
+    fn next_task(&mut self, runnable: &[&Task], current: Option<TaskId>, is_yielding: bool) -> Option<TaskId> {
+        self.0.lock().unwrap_or_else(|e| e.into_inner()).next_task(runnable, current, is_yielding)
+    }
+    fn next_u64(&mut self) -> u64 {
+        self.0.lock().unwrap_or_else(|e| e.into_inner()).next_u64()
+    }
+}
